@@ -143,7 +143,7 @@ def stored_back_over_list(fn, assign, loop):
 
 
 def effects_obligation(prop):
-    """cross-cutting obligation E10 (sa/effects.py): no hidden state, caller-owned inputs left alone, on the property's functions"""
+    """cross-cutting obligation E16 (sa/effects.py): no hidden state, caller-owned inputs left alone, on the property's functions"""
     from sa import effects
     from sa.report import Obligation
     from .effects_entries import ENTRIES
@@ -178,11 +178,11 @@ def effects_obligation(prop):
             raise Unsupported(f"{it['kind']} in {it['fn']}: {it['message']}", it["node"])
 
     return Obligation("OX.E", "history independence: no module/class-level state, caches or mutable defaults behind the property's functions; "
-                              "arguments owned by the caller are not modified (E10)", run, floor=1)
+                              "arguments owned by the caller are not modified (E16)", run, floor=1)
 
 
 def labels_obligation(prop, floor=0):
-    """cross-cutting obligation E11: pandas combines labelled operands by row label, not by row position"""
+    """cross-cutting obligation E17: pandas combines labelled operands by row label, not by row position"""
     from sa import interp as _interp
     from sa.report import Obligation
 
@@ -234,7 +234,7 @@ def labels_obligation(prop, floor=0):
                             "particles, so values are paired with the wrong particles", e.node, m)
         ctx.count(len(its), None)
 
-    return Obligation("OX.L", "row pairing: arithmetic and column assignment between labelled tables/columns pair the same particles (E11 labels, "
+    return Obligation("OX.L", "row pairing: arithmetic and column assignment between labelled tables/columns pair the same particles (E17 labels, "
                               "E6 row spaces; over every function interpreted for this property)", run, floor=floor)
 
 
